@@ -414,6 +414,75 @@ theorem nsi_atWorld_of_mem {n : Name} {w : World} (hn : n ∈ w.map (·.name)) :
     have := of_decide_eq_true (h i hi)
     exact absurd hin this
 
+/-- the single-world invariant holds for the state the merge loop ends in -/
+theorem tw_final {ordf : List World → List World} (hord : PermOrder ordf) {G : MG Name} (hG : G.WF)
+    (hdl : ∀ e ∈ G.di, e.1 ≠ e.2) (hbl : ∀ e ∈ G.bi, e.1 ≠ e.2) {ev : Event} (hev : EvOK ev) (hne : ev ≠ [])
+    (hk : ∀ k ∈ ev.keys, KeyOK G k) (w : World) (hkw : KeysIn w ev) (hw : w ≠ []) (topo : List Name)
+    (ht : G.topologicalSort = .ok topo) {cf' : MG Var} {nev : Event}
+    (hl : loopResult ordf G ev topo = .run cf' nev) : TW G (ev.keys.map (·.name)) w cf' nev := by
+  have hc := trivCtx_ok G hG topo ht ev
+  have hws := worlds_of_keysIn hord hkw hne hw
+  have hinit : TWSt G (ev.keys.map (·.name)) w (.run (cfInit G [w]) ev) := by
+    have hform := mem_nodes_cfInit G hG hbl [w] (by simp) (by simpa using hw)
+    refine ⟨?_, ?_, ?_, ?_, ?_, ?_, ?_, ?_, ?_⟩
+    · intro x hx
+      rcases hform x hx with ⟨n, _, rfl⟩ | ⟨w', hw', n, _, rfl⟩
+      · exact Or.inl rfl
+      · simp only [List.mem_singleton] at hw'
+        subst hw'
+        exact Or.inr rfl
+    · intro x n hx
+      rcases (mem_di_cfInit G [w] x _).1 hx with ⟨e, _, rfl, _⟩ | ⟨w', hw', e, _, _, _, h2⟩
+      · rfl
+      · simp only [List.mem_singleton] at hw'
+        subst hw'
+        exact absurd h2 (plain_ne_atWorld _ _ hw)
+    · intro a b hab
+      exact (mem_di_cfInit G [w] _ _).2 (Or.inl ⟨(a, b), hab, rfl, rfl⟩)
+    · intro m y hx hy
+      rcases (mem_di_cfInit G [w] _ y).1 hx with ⟨e, _, _, rfl⟩ | ⟨w', hw', e, _, _, h1, _⟩
+      · exact absurd rfl hy
+      · simp only [List.mem_singleton] at hw'
+        subst hw'
+        exact absurd h1 (plain_ne_atWorld _ _ hw)
+    · intro n hn
+      have := hkw _ hn
+      exact absurd this (plain_ne_atWorld _ _ hw)
+    · intro n hn hm
+      exact absurd (atWorld_mem_cfInit G [w] n hn w (by simp)) hm
+    · intro x y hx
+      rcases (mem_di_cfInit G [w] x y).1 hx with ⟨e, _, _, rfl⟩ | ⟨w', hw', e, _, hni, _, rfl⟩
+      · rfl
+      · unfold isNotSelfIntervened
+        unfold notIntervenedIn at hni
+        rw [List.all_eq_true] at hni ⊢
+        intro i hi
+        exact hni i hi
+    · intro k hkk
+      rw [hkw k hkk]
+      exact atWorld_mem_cfInit G [w] _ (hk k hkk).inG w (by simp)
+    · intro k hkk
+      exact List.mem_map.2 ⟨k, hkk, rfl⟩
+  have hfin : TWSt G (ev.keys.map (·.name)) w (loopResult ordf G ev topo) := by
+    unfold loopResult
+    rw [hws, mergeLoop_eq]
+    refine tw_runPairs hw (trivCtx G topo ev) hc hdl _ (allPairs_single w topo) _ ?_ hinit
+    have hwcs : ∀ w' ∈ [w], ConsistentSubs w' := by
+      intro w' hw'
+      simp only [List.mem_singleton] at hw'
+      subst hw'
+      cases ev with
+      | nil => exact absurd rfl hne
+      | cons p ps =>
+        have hk0 : p.1 ∈ Event.keys (p :: ps) := by simp [Event.keys]
+        have := (hk p.1 hk0).subs
+        rw [hkw p.1 hk0] at this
+        exact this
+    exact ⟨repInv_cfInit (trivCtx G topo ev) hc hG hdl hbl [w] (by simp) (by simpa using hw) hwcs,
+      ⟨fun _ _ _ => Iff.rfl, hev⟩⟩
+  rw [hl] at hfin
+  exact hfin
+
 /-- **structure of the counterfactual graph of a single-world event.**  Let every key of the (non-empty, well-formed) event be
 `n @ w` for one subscript set `w` (`w = []`: all keys factual).  Then in the returned graph
   * two non-self-intervened nodes with the same variable name are the same node, and
@@ -473,67 +542,8 @@ theorem sw_structure {ordf : List World → List World} (hord : PermOrder ordf) 
       · intro z _ _ hz
         cases hz
   · -- one counterfactual world
-    have hws := worlds_of_keysIn hord hkw hne hw
-    have hinit : TWSt G (ev.keys.map (·.name)) w (.run (cfInit G [w]) ev) := by
-      have hform := mem_nodes_cfInit G hG hbl [w] (by simp) (by simpa using hw)
-      refine ⟨?_, ?_, ?_, ?_, ?_, ?_, ?_, ?_, ?_⟩
-      · intro x hx
-        rcases hform x hx with ⟨n, _, rfl⟩ | ⟨w', hw', n, _, rfl⟩
-        · exact Or.inl rfl
-        · simp only [List.mem_singleton] at hw'
-          subst hw'
-          exact Or.inr rfl
-      · intro x n hx
-        rcases (mem_di_cfInit G [w] x _).1 hx with ⟨e, _, rfl, _⟩ | ⟨w', hw', e, _, _, _, h2⟩
-        · rfl
-        · simp only [List.mem_singleton] at hw'
-          subst hw'
-          exact absurd h2 (plain_ne_atWorld _ _ hw)
-      · intro a b hab
-        exact (mem_di_cfInit G [w] _ _).2 (Or.inl ⟨(a, b), hab, rfl, rfl⟩)
-      · intro m y hx hy
-        rcases (mem_di_cfInit G [w] _ y).1 hx with ⟨e, _, _, rfl⟩ | ⟨w', hw', e, _, _, h1, _⟩
-        · exact absurd rfl hy
-        · simp only [List.mem_singleton] at hw'
-          subst hw'
-          exact absurd h1 (plain_ne_atWorld _ _ hw)
-      · intro n hn
-        have := hkw _ hn
-        exact absurd this (plain_ne_atWorld _ _ hw)
-      · intro n hn hm
-        exact absurd (atWorld_mem_cfInit G [w] n hn w (by simp)) hm
-      · intro x y hx
-        rcases (mem_di_cfInit G [w] x y).1 hx with ⟨e, _, _, rfl⟩ | ⟨w', hw', e, _, hni, _, rfl⟩
-        · rfl
-        · unfold isNotSelfIntervened
-          unfold notIntervenedIn at hni
-          rw [List.all_eq_true] at hni ⊢
-          intro i hi
-          exact hni i hi
-      · intro k hkk
-        rw [hkw k hkk]
-        exact atWorld_mem_cfInit G [w] _ (hk k hkk).inG w (by simp)
-      · intro k hkk
-        exact List.mem_map.2 ⟨k, hkk, rfl⟩
-    have hfin : TWSt G (ev.keys.map (·.name)) w (loopResult ordf G ev topo) := by
-      unfold loopResult
-      rw [hws, mergeLoop_eq]
-      refine tw_runPairs hw (trivCtx G topo ev) hc hdl _ (allPairs_single w topo) _ ?_ hinit
-      have hwcs : ∀ w' ∈ [w], ConsistentSubs w' := by
-        intro w' hw'
-        simp only [List.mem_singleton] at hw'
-        subst hw'
-        cases ev with
-        | nil => exact absurd rfl hne
-        | cons p ps =>
-          have hk0 : p.1 ∈ Event.keys (p :: ps) := by simp [Event.keys]
-          have := (hk p.1 hk0).subs
-          rw [hkw p.1 hk0] at this
-          exact this
-      exact ⟨repInv_cfInit (trivCtx G topo ev) hc hG hdl hbl [w] (by simp) (by simpa using hw) hwcs,
-        ⟨fun _ _ _ => Iff.rfl, hev⟩⟩
-    rw [hl] at hfin
-    have htw : TW G (ev.keys.map (·.name)) w cf' nev := hfin
+    have htw : TW G (ev.keys.map (·.name)) w cf' nev :=
+      tw_final hord hG hdl hbl hev hne hk w hkw hw topo ht hl
     -- adding the keys as nodes changes nothing
     have hnodes'' : ∀ x, x ∈ (nev.keys.foldl MG.addNode cf').nodes → x ∈ cf'.nodes := by
       intro x hx
